@@ -192,6 +192,18 @@ def judgeBufStep (mode : Nat) (j : JB) (prev next : Step) (ln txt : Bytes) : JB 
     | some b =>
       let g := (ghostOf j b.id).getD { id := b.id, disk := none, text := b.text, row := b.row, dirty := b.dirty, histU := b.histU, histN := b.histN, savedAt := none }
       let msg := str next.msg
+      -- a command line of several commands: one of them may be a write of the own file; the dumped file
+      -- content after the line is what the editor last wrote
+      let segs := (str ln).splitOn "|"
+      let lineHasWrite := !single && segs.any (fun sg =>
+        let (_, c, _) := splitCmd (byt sg)
+        let c := (str c).replace "!" ""
+        c == "w" || c == "wq" || c == "x" || c == "xa")
+      if lineHasWrite && msg.contains "[w]" && fileOf next b.path != fileOf prev b.path then
+        let wr := (fileOf next b.path).getD b.text
+        let j := setGhost j { g with disk := some wr, savedAt := some b.histU }
+        { j with fs := { j.fs with touched := j.fs.touched.filter (· != b.path) } }
+      else
       if isWrite && (msg.contains "[w]") then
         let target := if arg.isEmpty || base != "w" then b.path else arg
         if target == b.path then
@@ -246,9 +258,13 @@ def judge04Step (j : J04) (prev next : Step) (ln : Bytes) : J04 :=
   let single := isSingle ln
   let cmd := cmdName ln
   let mentionsUndo := (str ln).contains "u" || (str ln).contains "redo"
+  -- a (re)load in the middle of a command line clears the history at a text the judge does not see
+  let mentionsLoad := ((str ln).splitOn "|").any (fun sg =>
+    let c := (cmdName (byt sg)).replace "!" ""
+    c == "e" || c == "ew")
   next.bufs.foldl (fun j b =>
     match bufById prev b.id with
-    | none => setUz j { id := b.id }
+    | none => setUz j { id := b.id, ok := single }      -- created by this line; edits after a mid-line load are not seen
     | some a =>
       let z := uzOf j b.id
       let isCur := b.slot == 0 || a.slot == 0
@@ -272,7 +288,7 @@ def judge04Step (j : J04) (prev next : Step) (ln : Bytes) : J04 :=
              { j with errs := j.errs ++ [s!"clause=redo_exact after {str ln}: buffer {b.id} want={bytesHex f} got={bytesHex b.text}"] }
            setUz j { z with past := a.text :: z.past, future := fs })
       else if a.text != b.text || a.histU != b.histU || a.histN != b.histN then
-        if !single && mentionsUndo then setUz j { z with ok := false }
+        if !single && (mentionsUndo || mentionsLoad) then setUz j { z with ok := false }
         else if b.histN == 0 && b.histU == 0 then setUz j { id := b.id }      -- history cleared (file opened)
         else setUz j { z with past := a.text :: z.past, future := [] }
       else j) j
